@@ -124,9 +124,15 @@ class Collector:
             self.harness.append(f"HarnessError: {exc} case={json.dumps(case, default=str)[:400]}")
             return None
         except Exception as exc:
-            tb = traceback.format_exc()
-            self.harness.append(f"{type(exc).__name__}: {exc}\n{tb[-1500:]}\ncase={json.dumps(case, default=str)[:400]}")
-            return None
+            frame = adcgen_frame(exc.__traceback__)
+            if frame is None:
+                tb = traceback.format_exc()
+                self.harness.append(f"{type(exc).__name__}: {exc}\n{tb[-1500:]}\ncase={json.dumps(case, default=str)[:400]}")
+                return None
+            # an exception escaping from the library on a generated input
+            r = R()
+            r.fail(f"uncaught/{type(exc).__name__}@{frame}",
+                   f"{type(exc).__name__}: {exc}")
         self.evaluations += 1 + r.extra_evals
         self.resampled += r.resampled
         for c in r.classes:
@@ -179,8 +185,13 @@ def fails_with(case, sig, run_case):
         r = run_case(case)
     except (BadCase, ModelResample, HarnessError):
         return None
-    except Exception:
-        return None
+    except Exception as exc:
+        frame = adcgen_frame(exc.__traceback__)
+        if frame is None:
+            return None
+        r = R()
+        r.fail(f"uncaught/{type(exc).__name__}@{frame}",
+               f"{type(exc).__name__}: {exc}")
     for sub, msg in r.fails:
         if sub == sig:
             return msg
@@ -324,7 +335,9 @@ def parent(args):
                 r = mod.run_case(case)
                 msgs = [(s, m) for s, m in r.fails]
             except Exception as exc:
-                msgs = [("replay-exception", repr(exc))]
+                frame = adcgen_frame(exc.__traceback__)
+                msgs = [(f"uncaught/{type(exc).__name__}@{frame}",
+                         repr(exc))]
             regress += 1
             hit = [(s, m) for s, m in msgs if re.search(k["sig_regex"], s)]
             other = [(s, m) for s, m in msgs
